@@ -101,6 +101,29 @@ def signature(inst, res, f):
     if d[0].startswith("tries") or d[0] in ("own-result", "uid-reused"):
         t = d[1]
         return "%s %s" % (d[0], "creation-node" if inst.const["tests"][t]["objroot"] else ("setup" if inst.const["tests"][t]["sets"] else "leaf"))
+    if d[0] == "uid-reused-pre-step":
+        # the known finding F-C10-2 is the repetition of a pre-step that was not followed by a main step (its failure leaves no
+        # result on the node); an identifier repeated although a main try was recorded in between is something else
+        t, w = d[1], d[2]
+        ev = res["events"]
+        here = next((i for i, e in enumerate(ev) if e["i"] == f["event"] or e.get("i") == f.get("event")), None)
+        cur = [e for e in ev if e["a"] == "prestart" and e.get("t") == t and e["w"] == w]
+        kinds = set()
+        seen = {}
+        main_since = {}
+        for e in ev:
+            if e.get("t") != t or e["w"] != w:
+                continue
+            if e["a"] == "prestart":
+                u = e.get("uid")
+                if u in seen:
+                    kinds.add("after-main-try" if main_since.get(u) else "after-pre-step-without-main-try")
+                seen[u] = True
+                main_since[u] = False
+            elif e["a"] == "endrun":
+                for u in main_since:
+                    main_since[u] = True
+        return "uid-reused-pre-step " + "+".join(sorted(kinds) or ["?"])
     return str(d[0])
 
 
